@@ -142,4 +142,20 @@ theorem inv_reachable (hdr : Bytes) (s : State) (h : Reachable hdr s) : Inv hdr 
   | init => exact inv_init hdr
   | step l _ hs ih => exact inv_step hdr _ _ l ih hs
 
+/-- run a schedule of labels (used to exhibit concrete reachable states) -/
+def hrun (hdr : Bytes) : List Label → State → Option State
+  | [], s => some s
+  | l :: ls, s => (step hdr s l).bind (hrun hdr ls)
+
+theorem hrun_reachable (hdr : Bytes) (ls : List Label) :
+    ∀ s s', Reachable hdr s → hrun hdr ls s = some s' → Reachable hdr s' := by
+  induction ls with
+  | nil => intro s s' h e; cases e; exact h
+  | cons l ls ih =>
+    intro s s' h e
+    simp only [hrun] at e
+    cases hs : step hdr s l with
+    | none => rw [hs] at e; cases e
+    | some s1 => rw [hs] at e; exact ih s1 s' (Reachable.step l h hs) e
+
 end Drpc.Migrate.Header
